@@ -90,9 +90,20 @@ def showDump (c : Htp.Conn.Conn) : String :=
   let txs := " | ".intercalate (c.txs.map fun o => match o with | some t => showTx t | none => "~")
   s!"ntx={c.txs.length} in_tx={showOptUid c.inn.tx} out_tx={showOptUid c.out.tx} in_state={reqStateName c.inState} out_state={resStateName c.outState} " ++
   s!"in_status={c.inn.status} out_status={c.out.status} conn_flags={c.connFlags} in_ctr={c.inDataCounter} out_ctr={c.outDataCounter} " ++
-  s!"in_buf={showOptLen c.inn.buf} out_buf={showOptLen c.out.buf} in_hdr={showOptLen c.inn.header} out_hdr={showOptLen c.out.header} next_idx={c.outNextTxIndex} :: {txs}"
+  s!"in_buf={showOptLen c.inn.buf} out_buf={showOptLen c.out.buf} in_hdr={showOptLen c.inn.header} out_hdr={showOptLen c.out.header} next_idx={c.outNextTxIndex} dec=[{",".intercalate (c.outDecs.map fun d => s!"{d.kind}:{if d.passthrough then 1 else 0}")}] :: {txs}"
 
 def unsupportedMark (c : Htp.Conn.Conn) : String := if c.unsupported then " UNSUPPORTED" else ""
+
+/-- "rc:consumed:hex,rc:consumed:hex,..." ("-" = no inflate call) -/
+def parseZTrace (t : String) : Option (List ZRes) :=
+  if t == "-" then some [] else
+  (t.splitOn ",").mapM fun item =>
+    match item.splitOn ":" with
+    | [rc, consumed, hx] =>
+      match rc.toInt?, consumed.toNat?, bytesOfHex hx with
+      | some r, some k, some b => some ({ rc := r, consumed := k, produced := b } : ZRes)
+      | _, _, _ => none
+    | _ => none
 
 /-- one item of a `play` list -/
 inductive PlayItem where
@@ -192,7 +203,7 @@ def playAll (cfg : Cfg) (c : Htp.Conn.Conn) (items : List PlayItem) : Htp.Conn.C
 def connOp (slot : Option ConnSlot) : List String → Option ConnSlot × String
   | ["new", spec, pol] =>
     match cfgOfSpec spec, parsePolicy pol with
-    | some cfg, some p => (some { cfg := cfg, conn := { policy := p, allowCbDestroy := !cfg.txAutoDestroy } }, "ok")
+    | some cfg, some p => (some { cfg := cfg, conn := { policy := p, allowCbDestroy := !cfg.txAutoDestroy, bombLimit := cfg.bombLimit.toNat } }, "ok")
     | _, _ => (slot, "bad-op")
   | op =>
     match slot with
@@ -211,6 +222,15 @@ def connOp (slot : Option ConnSlot) : List String → Option ConnSlot × String
           let (c, rc) := resData s.cfg (some b) b.length c
           (some { s with conn := c }, s!"rc={rc} consumed={c.out.read} len={b.length} ev=[{showEvents c.events}]{unsupportedMark c}")
         | none => (slot, "bad-op")
+      | ["zon"] => (some { s with conn := { c with zused := true } }, "ok")
+      | ["res", h, zt] => match bytesOfHex h, parseZTrace zt with
+        | some b, some zs =>
+          -- the results of the inflate() calls of this data call, recorded from the implementation (C07)
+          let (c, rc) := resData s.cfg (some b) b.length { c with zoracle := zs, zused := true }
+          let left := c.zoracle.length
+          (some { s with conn := { c with zoracle := [] } },
+           s!"rc={rc} consumed={c.out.read} len={b.length} ev=[{showEvents c.events}] zleft={left}{unsupportedMark c}")
+        | _, _ => (slot, "bad-op")
       | ["reqgap", n] => match n.toNat? with
         | some k =>
           let (c, rc) := reqData s.cfg none k c
